@@ -9,6 +9,7 @@ mod fam_srv;
 mod fam_fe;
 mod fam_send;
 mod fam_locks;
+mod fam_kern;
 mod peer;
 mod daemon;
 mod fam_route;
@@ -67,6 +68,7 @@ fn fam_dispatch(fam: &str, line: &str) -> Option<String> {
         "locks" => Some(fam_locks::run(line)),
         "route" => Some(fam_route::run(line)),
         "log" => Some(fam_log::run(line)),
+        "kern" => Some(fam_kern::run(line)),
         _ => None,
     }
 }
